@@ -305,4 +305,5 @@ def families(tier, seed):
             # the AES-GCM paths (OpenSSL configuration): malformed / truncated / extended / bit-flipped packets, small capacities
             Family("gcm-malformed-packets", with_aead(malformed_scripts, random.Random(seed * 1000 + 110), tier, n=(12 if tier == "quick" else 200)),
                    monitor=monitor, config="openssl"),
+            Family("gcm-window-edge-states", with_aead(state_scripts, random.Random(seed * 1000 + 410), tier, n=(8 if tier == "quick" else 80)), monitor=monitor, config="openssl"),
             Family("gcm-cryptex-6904-crafted", gcm_crafted_scripts(random.Random(seed * 1000 + 210), tier), monitor=monitor, config="openssl")]
